@@ -15,6 +15,9 @@ import (
 	"bytes"
 	"fmt"
 	"hash/fnv"
+	"os"
+	"runtime"
+	"runtime/pprof"
 	"strconv"
 	"strings"
 	"time"
@@ -22,7 +25,19 @@ import (
 	. "verifh/lib"
 )
 
-func main() { Main("C03", c03) }
+func main() {
+	if pf := os.Getenv("C03_PROF"); pf != "" {
+		if fh, err := os.Create(pf); err == nil {
+			pprof.StartCPUProfile(fh)
+			defer pprof.StopCPUProfile()
+		}
+	}
+	// one P: the hand-over to the watchdog's worker goroutine is then a goroutine switch, not a futex wake-up of
+	// another thread (10 s less per run); a call that hangs is preempted every 10 ms, and every abandoned call adds a P
+	runtime.GOMAXPROCS(1)
+	C03GuardOps() // every op under the watchdog: a replayed request that hangs answers "hang"
+	Main("C03", c03)
+}
 
 type runner struct {
 	c       *Ctx
@@ -35,6 +50,7 @@ type runner struct {
 	corrAll   int
 	corrEvery int
 	tails     [][]byte
+	hung      map[string]int // type -> calls that did not return
 }
 
 func (r *runner) dup(key string) bool {
@@ -77,10 +93,83 @@ func (r *runner) check(t *C03Type, ver, dial int, body []byte, pool []C03VerBody
 		}
 		r.seen[hkey] = struct{}{}
 	}
+	if r.hung[t.Name] >= 2 { // two calls of this type never returned: each left a spinning goroutine behind; enough
+		return
+	}
 	mkkey := func() string { return fmt.Sprintf("%s %d %d %s", t.Name, ver, dial, Hx(body)) }
-	t0 := time.Now()
-	ans := C03Parse(t, ver, dial, body, nil)
-	el := time.Since(t0)
+	// the earlier bodies of the receiver-reuse run (chosen here: the PRNG belongs to this goroutine)
+	var seq []C03VerBody
+	if len(pool) > 0 {
+		n := 1 + c.Rng.Intn(3)
+		seq = make([]C03VerBody, 0, n+1)
+		for i := 0; i < n; i++ {
+			p := pool[c.Rng.Intn(len(pool))] // a well-formed body of some header version, parsed with that version
+			if c.Rng.Intn(6) == 0 && len(p.Body) > 0 { // a prefix: a parse that fails half way
+				p.Body = p.Body[:c.Rng.Intn(len(p.Body))]
+			}
+			if c.Rng.Intn(8) == 0 { // or with another header version
+				vers := t.Versions()
+				p.Ver = vers[c.Rng.Intn(len(vers))]
+			}
+			seq = append(seq, p)
+		}
+		seq = append(seq, C03VerBody{Ver: ver, Body: body})
+	}
+	mkreq := func() string {
+		var sb strings.Builder
+		fmt.Fprintf(&sb, "c03s %s %d", t.Name, dial)
+		for _, s := range seq {
+			sb.WriteByte(' ')
+			sb.WriteString(s.String())
+		}
+		return sb.String()
+	}
+	// the real code, under the watchdog (one hand-over per body): (a) exact capacity with String(), (b) behind two
+	// poisoned tails, (c) on a receiver that parsed 1..3 other bodies first
+	var ans, a3 string
+	a2 := make([]string, len(r.tails))
+	stage := -1
+	var el time.Duration
+	_, outcome := C03Call(func() string {
+		stage = -1
+		t0 := time.Now()
+		if len(body) > 600 && hkey%8 != 0 {
+			ans = C03ParseNoString(t, ver, dial, body)
+		} else {
+			ans = C03Parse(t, ver, dial, body, nil)
+		}
+		el = time.Since(t0)
+		for i, tail := range r.tails {
+			stage = i
+			a2[i] = C03Parse(t, ver, dial, body, tail)
+		}
+		if seq != nil {
+			stage = len(r.tails)
+			a3 = C03ParseSeq(t, dial, seq)
+		}
+		return ""
+	})
+	replay := func() string {
+		switch {
+		case stage < 0:
+			return "c03p " + mkkey()
+		case stage < len(r.tails):
+			return "c03t " + mkkey() + " " + Hx(r.tails[stage])
+		}
+		return mkreq()
+	}
+	switch outcome {
+	case "hang":
+		r.hung[t.Name]++
+		runtime.GOMAXPROCS(runtime.GOMAXPROCS(0) + 1)
+		viol(c, Violation{Signature: "C03/hang/" + t.Name, What: "Parse did not return within " + (C03Deadline + C03LongDeadline).String() + " (call abandoned)",
+			Input: replay(), Observed: "no answer", Required: "returns promptly: an error or a value"})
+		c.Case(replay(), "hang", true)
+		return
+	case "slow":
+		viol(c, Violation{Signature: "C03/slow/" + t.Name, What: "Parse needed more than " + C03Deadline.String() + " twice", Input: replay(),
+			Observed: "slow", Required: "returns promptly"})
+	}
 	if el > r.slowest {
 		r.slowest, r.slowReq = el, Trunc("c03p "+mkkey(), 200)
 	}
@@ -88,10 +177,6 @@ func (r *runner) check(t *C03Type, ver, dial int, body []byte, pool []C03VerBody
 	c.Count(kind + ":" + out)
 	c.Count("type:" + t.Name + ":" + out)
 	nontrivial := out != "err" || len(body) > 0
-	if el > 2*time.Second {
-		viol(c, Violation{Signature: "C03/slow/" + t.Name, What: "Parse did not terminate promptly", Input: "c03p " + mkkey(),
-			Observed: el.String(), Required: "returns promptly"})
-	}
 	switch out {
 	case "panic":
 		viol(c, Violation{Signature: "C03/panic/" + t.Name, What: "Parse panicked on an exact-capacity body (index or slice beyond len)", Input: "c03p " + mkkey(),
@@ -105,51 +190,27 @@ func (r *runner) check(t *C03Type, ver, dial int, body []byte, pool []C03VerBody
 	if out == "strpanic" {
 		cmp = "ok" + ans[len("strpanic"):]
 	}
-	// (b) spare capacity behind two different poisoned tails: same outcome and same value
-	for _, tail := range r.tails {
-		if a2 := C03Parse(t, ver, dial, body, tail); a2 != cmp {
+	for i, tail := range r.tails {
+		if a2[i] != cmp {
 			viol(c, Violation{Signature: "C03/tail/" + t.Name, What: "the result depends on memory beyond the slice",
-				Input: "c03t " + mkkey() + " " + Hx(tail), Observed: Trunc(a2, 400), Required: "same as with exact capacity: " + Trunc(ans, 400)})
+				Input: "c03t " + mkkey() + " " + Hx(tail), Observed: Trunc(a2[i], 400), Required: "same as with exact capacity: " + Trunc(ans, 400)})
 		}
 	}
-	// (c) receiver reuse: a receiver that parsed 1..3 other bodies first must give the answer of a fresh one
-	if len(pool) > 0 {
-		n := 1 + c.Rng.Intn(3)
-		seq := make([]C03VerBody, 0, n+1)
-		for i := 0; i < n; i++ {
-			p := pool[c.Rng.Intn(len(pool))] // a well-formed body of some header version, parsed with that version
-			if c.Rng.Intn(6) == 0 && len(p.Body) > 0 { // a prefix: a parse that fails half way
-				p.Body = p.Body[:c.Rng.Intn(len(p.Body))]
-			}
-			if c.Rng.Intn(8) == 0 { // or with another header version
-				vers := t.Versions()
-				p.Ver = vers[c.Rng.Intn(len(vers))]
-			}
-			seq = append(seq, p)
-		}
-		seq = append(seq, C03VerBody{Ver: ver, Body: body})
-		a3 := C03ParseSeq(t, dial, seq)
-		mkreq := func() string {
-			var sb strings.Builder
-			fmt.Fprintf(&sb, "c03s %s %d", t.Name, dial)
-			for _, s := range seq {
-				sb.WriteByte(' ')
-				sb.WriteString(s.String())
-			}
-			return sb.String()
-		}
+	// the extracted model reads a list: bodies of several kilobytes (count sweeps with 255 records) cost it
+	// milliseconds each, so only one in sixteen of those becomes a correspondence line (all run on the implementation)
+	big := len(body) > 400 && hkey%16 != 0
+	if seq != nil {
 		if a3 != cmp {
 			viol(c, Violation{Signature: "C03/history/" + t.Name, What: "the outcome depends on what the receiver parsed before",
 				Input: mkreq(), Observed: Trunc(a3, 600), Required: "same as a fresh receiver: " + Trunc(ans, 600)})
 		}
-		if t.Model && r.sample("seq/"+t.Name+"/"+kind) {
+		if t.Model && !big && r.sample("seq/"+t.Name+"/"+kind) {
 			c.Case(mkreq(), a3, true)
 		} else {
 			c.Evaluations++
 		}
 	}
-	// correspondence case (sampled)
-	if t.Model && r.sample(fmt.Sprintf("%s/%d/%d/%s", t.Name, ver, dial, kind)) {
+	if t.Model && !big && r.sample(fmt.Sprintf("%s/%d/%d/%s", t.Name, ver, dial, kind)) {
 		c.Case("c03p "+mkkey(), ans, nontrivial)
 	} else if c.Quick() {
 		c.Eval(strconv.FormatUint(hkey, 36), nontrivial)
@@ -163,7 +224,7 @@ func fill(n int, b byte) []byte { return bytes.Repeat([]byte{b}, n) }
 func c03(c *Ctx) {
 	c.Rule = "per exported message type x header version x dialect: every body length 0..guard+3 (0..1100 for the first version/dialect, 0..300 otherwise) with 0x00 / 0xFF / 0x01 fill; well-formed wire bodies built by hand, every truncation of them, extensions, every value 0..255 in every byte of their count/length/id fields (+ all-ones), boundary values at the other positions, random mutations; each on an exact-capacity copy, behind two poisoned tails and on a receiver that parsed 1-3 other bodies; jt808 frames and jt1078 packets likewise; location family: see lib.C03Location. A case is non-trivial when the body is non-empty or parses; distinct = distinct (type,version,dialect,bytes)"
 	r := &runner{c: c, g: &C03Gen{R: c.Rng, Big: !c.Quick()}, seen: map[uint64]struct{}{}, bucket: map[string]int{},
-		corrAll: 150, corrEvery: 9, tails: [][]byte{fill(64, 0xA5), fill(64, 0x01)}}
+		hung: map[string]int{}, corrAll: 150, corrEvery: 9, tails: [][]byte{fill(64, 0xA5), fill(64, 0x01)}}
 	if !c.Quick() {
 		r.corrAll, r.corrEvery = 300, 40
 	}
@@ -309,6 +370,10 @@ func c03(c *Ctx) {
 						r.check(t, ver, dial, m, pool, "mutate")
 					}
 				}
+				// (c') every value of every length / count field with exactly that many units present, and +-1 byte
+				if lens := C03Lens[t.Name]; lens != nil {
+					lens(r.g, ver, dial, func(b []byte) { r.check(t, ver, dial, b, pool, "len") })
+				}
 			}
 		}
 	}
@@ -351,7 +416,12 @@ func c03(c *Ctx) {
 // ---------------------------------------------------------------- jt808 frames
 
 func mkFrame(rng interface{ Intn(int) int }, ver2019, frag bool, bodyLen int, g *C03Gen) []byte {
-	attr := uint16(bodyLen & 0x3FF)
+	return mkFrame2(rng, ver2019, frag, bodyLen, bodyLen, g)
+}
+
+// mkFrame2: the attribute word announces `declared` body bytes, `bodyLen` are present
+func mkFrame2(rng interface{ Intn(int) int }, ver2019, frag bool, declared, bodyLen int, g *C03Gen) []byte {
+	attr := uint16(declared & 0x3FF)
 	if ver2019 {
 		attr |= 1 << 14
 	}
@@ -399,6 +469,10 @@ func c03Frames(c *Ctx, r *runner) {
 		c.Count("frame:" + kind + ":" + firstWord(ans))
 		if ans == "panic" {
 			viol(c, Violation{Signature: "C03/panic/jt808.Decode", What: "frame Decode panicked", Input: req, Observed: ans, Required: "an error or a message"})
+		}
+		if ans == "hang" {
+			viol(c, Violation{Signature: "C03/hang/jt808.Decode", What: "frame Decode did not return", Input: req, Observed: ans, Required: "returns promptly"})
+			return
 		}
 		for _, tail := range [][]byte{fill(32, 0xAA), fill(32, 0x7e), {0x7d, 0x02, 0x7e}} {
 			if a2 := C03FrameSeq([][]byte{f}, tail); a2 != ans {
@@ -449,6 +523,18 @@ func c03Frames(c *Ctx, r *runner) {
 				z[0], z[n-1] = 0x7e, 0x7e
 				one(z, pool, fmt.Sprintf("%02x-delimited", fb))
 			}
+		}
+	}
+	// every announced body length 0..1023 with exactly that many bytes present, one fewer, one more
+	for bl := 0; bl < 1024; bl++ {
+		if c.Quick() && bl > 260 && bl < 1000 && bl%16 != 0 {
+			continue
+		}
+		for _, e := range []int{0, -1, 1} {
+			if bl+e < 0 {
+				continue
+			}
+			one(mkFrame2(c.Rng, bl%2 == 0, bl%3 == 0, bl, bl+e, r.g), pool, "len")
 		}
 	}
 	for _, f := range pool {
@@ -516,6 +602,22 @@ func c03Rtp(c *Ctx, r *runner) {
 		m := append([]byte{0x30, 0x31, 0x63, 0x64}, fill(n, 0xFF)...) // marker + all-ones: largest body length
 		inputs = append(inputs, m, append([]byte{0x30, 0x31, 0x63, 0x64}, make([]byte, n)...))
 	}
+	// every announced body length 0..255 (and 256, 950, 65535) with exactly that many bytes, one fewer, one more
+	for _, bl := range append(append([]int{}, 256, 257, 950, 951, 65535), seqInts(256)...) {
+		for _, e := range []int{0, -1, 1} {
+			n := bl + e
+			if n < 0 {
+				continue
+			}
+			if n > 2000 {
+				n = 10 + e
+			}
+			p := rtp(uint8(bl%5), uint8(bl%16), bl, r.g)
+			hd := len(p) - bl
+			p = append(p[:hd:hd], r.g.Bytes(n)...)
+			inputs = append(inputs, p)
+		}
+	}
 	reps := 1
 	if !c.Quick() {
 		reps = 8
@@ -527,6 +629,10 @@ func c03Rtp(c *Ctx, r *runner) {
 			if rep == 0 {
 				c.Case(req, fresh, len(in) >= 16)
 				c.Count("rtp:" + firstWord(fresh))
+				if fresh == "hang" {
+					viol(c, Violation{Signature: "C03/hang/jt1078.Decode", What: "jt1078 Decode did not return", Input: req, Observed: "hang", Required: "returns promptly"})
+					continue
+				}
 				if fresh == "panic" {
 					viol(c, Violation{Signature: "C03/panic/jt1078.Decode", What: "jt1078 Decode or String panicked (fresh Packet)", Input: req, Observed: "panic", Required: "an error or a packet"})
 				}
@@ -552,6 +658,14 @@ func c03Rtp(c *Ctx, r *runner) {
 			}
 		}
 	}
+}
+
+func seqInts(n int) []int {
+	r := make([]int, n)
+	for i := range r {
+		r[i] = i
+	}
+	return r
 }
 
 var violCount = map[string]int{}
